@@ -306,12 +306,27 @@ def main(tier):
         def on_beh(tag, v, got=got, name=name):
             # the 5-call exhaustive export has > 500 k behaviours: a seeded third of them is replayed
             # (TLC still checks every state); everything else is replayed completely
-            if name == "exhaustive-5calls" and (len(got) + common.SEED) % 3:
+            if name == "exhaustive-5calls" and (counted[0] + len(got) + common.SEED) % 3:
                 on_beh.skipped = getattr(on_beh, "skipped", 0) + 1
                 got.append(None)
                 return
             got.append(v)
+            if len(got) >= 20000:
+                flush(got, name)
 
+        def flush(got, name):
+            for b in got:
+                if b is None:
+                    continue
+                d = common.digest(b)
+                if d not in seen:
+                    seen.add(d)
+                    b["_cfg"] = name
+                    behs.append((d, name, json.dumps(b, separators=(",", ":"))))
+            counted[0] += len(got)
+            del got[:]
+
+        counted = [0]
         if mode == "export":
             tlc.write_cfg(cfg, constants=consts, invariants=INVARIANTS + ["Export"], properties=PROPERTIES)
             res = tlc.run("MC_RopeHistory", cfg, on_tagged=on_beh, collect_tags=False)
@@ -323,8 +338,9 @@ def main(tier):
             res = tlc.run("MC_RopeHistory", cfg, simulate={"num": max(1, num // 16)}, depth=32, seed=common.SEED + 7,
                           on_tagged=on_beh, collect_tags=False)
         os.unlink(cfg)
-        print("TLC RopeHistory[%s]:" % name, res.summary(), "behaviours:", len(got))
-        runs.append({"config": name, "mode": mode, **res.summary(), "behaviours": len(got)})
+        flush(got, name)
+        print("TLC RopeHistory[%s]:" % name, res.summary(), "behaviours:", counted[0])
+        runs.append({"config": name, "mode": mode, **res.summary(), "behaviours": counted[0]})
         if not res.ok:
             if res.violated:
                 path = common.write_replay(PROP, {"kind": "tlc-counterexample", "config": name,
@@ -337,28 +353,20 @@ def main(tier):
         if mode != "sim":
             total_states += res.distinct
             total_trans += res.generated
-        for b in got:
-            if b is None:
-                continue
-            d = common.digest(b)
-            if d not in seen:
-                seen.add(d)
-                b["_cfg"] = name
-                behs.append(b)
-        del got
-    behs.sort(key=lambda b: common.digest(b))
+        # (several hundred thousand nested dicts do not fit in memory - 41 GB at the thorough bounds: flush()
+        # keeps each behaviour as compact JSON text)
+    behs.sort(key=lambda t: t[0])
     cap = 60000 if tier == "quick" else 260000
     if len(behs) > cap:
         # stratified: configurations with few behaviours are replayed completely, the big ones are sampled
         import collections
-        per = collections.Counter(b["_cfg"] for b in behs)
-        small = [b for b in behs if per[b["_cfg"]] <= 12000]
-        big = [b for b in behs if per[b["_cfg"]] > 12000]
+        per = collections.Counter(t[1] for t in behs)
+        small = [t for t in behs if per[t[1]] <= 12000]
+        big = [t for t in behs if per[t[1]] > 12000]
         rnd = common.rng("c11cap")
         rnd.shuffle(big)
         behs = small + big[:max(0, cap - len(small))]
-    # several hundred thousand nested dicts times 16 forked workers do not fit in memory: keep text only
-    behs = [json.dumps(b, separators=(",", ":")) for b in behs]
+    behs = [t[2] for t in behs]
     import gc
     gc.collect()
     drvdir = common.scratch("c11drv_")
@@ -388,7 +396,7 @@ def main(tier):
             verdict.failure(r["key"], {"property": PROP, "key": r["key"], "behaviour": beh, "step": r["step"],
                                        "observed": r["obs"], "expected": r["expected"]})
     if not samples and behs:
-        b = behs[len(behs) // 2]
+        b = json.loads(behs[len(behs) // 2])
         samples.append({"limit": b["limit"], "calls": [{"act": s["act"], "arg": s["arg"]} for s in b["trail"]]})
     os.environ.pop("VERIF_REC_DIR", None)
     tinfo = repo_test_traces(tier, verdict, extra_dir=drvdir)
